@@ -406,7 +406,20 @@ def check_nematic(run, pkg):
                 continue
             st = [e for e in stores(it) if len(e.loops) == 2 and e.data["target"][2][0] == "tuple" and len(e.data["target"][2][1]) == 2]
             if len(st) != 1:
-                run.ob("R-ALG", fq, f"{tag}:scalar", None, "one scalar store", f"{len(st)}", loc=fi.loc())
+                # whole-array form (eigvalsh / einsum over the tensor array): which tensor feeds the scalar is decided - it must be
+                # the one kept as self.QIJ (the neighbour-averaged one when a neighbour file is given); the rest stays undecided
+                from ..vg import strip_alloc as _sa
+                feeds = [x[2][0] for x in walk(ret) if x[0] == "call" and x[1] in ("numpy.linalg.eigvalsh", "numpy.linalg.eigvals", "numpy.linalg.eig", "numpy.linalg.eigh") and x[2]]
+                feeds += [a_ for x in walk(ret) if x[0] == "call" and x[1] == "numpy.einsum" and len(x[2]) >= 2 for a_ in x[2][1:]]
+                feeds = [Q if f_ == ("attr", SELF, "QIJ") else f_ for f_ in feeds]
+                averaged = lambda t_: any(y[0] == "call" and y[1] == "PyMatterSim.utils.coarse_graining.spatial_average" for y in walk(t_))      # noqa: E731
+                verdict, det = None, f"{len(st)} per-particle stores; {len(feeds)} whole-array tensor operands"
+                if nb and feeds and averaged(Q) and any(not averaged(f_) for f_ in feeds):
+                    verdict = False
+                    det = "with a neighbour file self.QIJ holds the neighbour-averaged tensors, but the scalar is computed from the raw per-particle tensors"
+                run.ob("R-ALG", fq, f"{tag}:scalar", verdict, "the scalar order is computed from the tensors kept as self.QIJ (neighbour-averaged when a neighbour file is given)", det,
+                       witness=None if verdict is not False else "eigvals / trace with a neighbour file: the result equals the one without the file (1 for every particle in 2D), not the order of the averaged tensor",
+                       loc=fi.loc(), sound=True)
                 continue
             e = st[0]
             nn, ii = e.data["target"][2][1]
